@@ -152,7 +152,10 @@ theorem appendBatch_RS (es : List (LogId × Bytes)) :
           (fun e he => hsm e (List.mem_cons_of_mem _ he))
           (fun e he => hwf e (List.mem_cons_of_mem _ he))
       refine ⟨seg2, s2, e2, ?_, hinv2, hS2⟩
-      unfold Store.appendBatch
+      have hidxD12 : id.index + 1 ≠ U64 := by
+        have : id.index + 1 < U64 := hsm (id, p) List.mem_cons_self
+        omega
+      rw [appendBatch_cons_small_D12 _ _ _ _ _ _ _ hidxD12]
       rw [heq1]
       simp only
       exact heq2
@@ -225,7 +228,10 @@ theorem call_RS {s : Store} {fs : Fs} {w : Worker} {r r' : RefLog} (fsHas : Nat 
       exact step (stepOK_truncateAfter h.abs (Or.inr ⟨e, (RefLog.entryAt_some he).1, rfl⟩)
         (by rw [← hde]; exact hds)) hidwf
   | purge upto =>
-    simp only [Store.call]
+    have hidxD12 : upto.index + 1 ≠ U64 := by
+      have : upto.index + 1 < U64 := hsm
+      omega
+    simp only [Store.call, if_neg hidxD12]
     rw [nextIndexChecked_eq h.abs.pf.purged]
     simp only [hpu]
     simp only [RefLog.call] at hc
